@@ -38,7 +38,7 @@ INTERNED = ('S', 'D', 'arr', 'tf', 'ev', 'mesh')
 
 def nroutes(spec):
     t = spec[0]
-    return {'nd': 3, 'arr': 8, 'P': 4, 'S': 4, 'D': 4, 'V': 2, 'ev': 2, 'mesh': 3, 'fset': 3, 'dict': 3, 'fdict': 4, 'fmset': 3, 'tuple': 2, 'list': 2, 'method': 2, 'system': 2, 'tf': 2}.get(t, 1)
+    return {'nd': 3, 'arr': 8, 'P': 4, 'S': 4, 'D': 4, 'V': 2, 'ev': 2, 'mesh': 3, 'fset': 3, 'dict': 3, 'fdict': 4, 'fmset': 3, 'tuple': 2, 'list': 2, 'method': 2, 'system': 2, 'tf': 2, 'fn': 1}.get(t, 1)
 
 
 def _mod(m):
@@ -48,6 +48,8 @@ def _mod(m):
 
 def build(spec, route=0):
     if route >= 100:
+        if spec[0] == 'fn':
+            return build(spec, route - 100)   # compiled functions are not picklable (and need not be)
         return pickle.loads(pickle.dumps(build(spec, route - 100)))
     from nutils import types
     t = spec[0]
@@ -207,6 +209,20 @@ def build(spec, route=0):
         if route % 3 == 2:
             v = pickle.loads(pickle.dumps(v))
         return v
+    if t == 'strategy':
+        from nutils import solver
+        return getattr(solver, spec[1])(**{k: build(v, 0) for k, v in spec[2]})
+    if t == 'inertia':
+        from nutils import function
+        u = function.Argument('u', (spec[1],))
+        return (u.as_evaluable_array,)
+    if t == 'fn':
+        # a compiled function: its hash (taken from the generated script) must tell apart programs that differ only in the data of a constant
+        from nutils import evaluable as ev
+        x = ev.Argument('x', (ev.constant(len(spec[2])),), float)
+        c = ev.constant(numpy.array(spec[2], dtype=float))
+        expr = {'axpy': lambda: c * x + ev.constant(1.), 'dot': lambda: ev.Sum(c * x), 'pair': lambda: (c * x, ev.Sum(c) + ev.Sum(x))}[spec[1]]()
+        return ev.compile(expr, cache_const_intermediates=bool(route % 2))
     if t == 'method':
         from nutils import solver
         kw = {k: build(v, 0) for k, v in spec[2]}
@@ -270,6 +286,8 @@ def spec_key(spec):
         defaults = {'P': [None, ['int', 2]], 'S': [None, ['int', 2], ['str', 'z']], 'D': [None, ['str', 'q'], ['tuple', []]], 'V': [None]}[t]
         args = list(spec[2:]) + defaults[len(spec) - 2:]
         return [t, spec[1]] + [spec_key(s) for s in args]
+    if t in ('method', 'strategy'):
+        return [t, spec[1], sorted(core.canon([k, spec_key(v)]) for k, v in spec[2])]
     if t == 'npint':
         return ['int', spec[1]]
     if t == 'arr' and spec[1] == 'u' and all(v < 2**63 for v in spec[3]):
@@ -392,8 +410,30 @@ def gen_spec(rng, depth=0):
             return ['mesh', rng.choice(['sample', 'integral', 'integral']), 'prod', rng.choice([1, 2, 3])]
         return ['mesh', rng.choice(['references', 'transforms', 'btransforms', 'points', 'sample', 'integral'] + sorted(MESH_EXTRA)), rng.choice(['line', 'quad', 'tri']), rng.choice([1, 2, 3])]
     if r < 0.985:
-        return ['method', rng.choice(['Direct', 'Newton', 'LinesearchNewton']), [['atol', ['float', rng.choice([1e-8, 1e-6])]], ['solver', ['str', rng.choice(['arnoldi', 'direct'])]]]]
+        return gen_method(rng) if rng.random() < 0.75 else ['fn', rng.choice(['axpy', 'dot', 'pair']), [rng.choice([1., 2., 0.5]) for _ in range(rng.choice([2, 3]))]]
     return ['system', rng.choice([1, 2]), rng.choice([1, 3])]
+
+
+METHOD_KW = {
+    'Direct': {},
+    'Newton': {},
+    'ReuseNewton': {'require': [.25, .75, .9]},
+    'LinesearchNewton': {'failrelax': [1e-3, 1e-4], 'relax0': [.5, .25], 'strategy': [['strategy', 'NormBased', []], ['strategy', 'NormBased', [['minscale', ['float', .02]]]], ['strategy', 'MedianBased', []], ['strategy', 'MedianBased', [['quantile', ['float', .25]]]]]},
+    'Minimize': {'rampup': [.25, .75], 'rampdown': [-.5, -2.], 'failrelax': [-5., -20.]},
+    'Pseudotime': {'inertia': [['inertia', 2], ['inertia', 3]], 'timestep': [1., .5, 2.]},
+}
+
+
+def gen_method(rng):
+    name = rng.choice(sorted(METHOD_KW))
+    kw = [['atol', ['float', rng.choice([1e-8, 1e-6])]]] if rng.random() < 0.6 else []
+    if rng.random() < 0.4:
+        kw.append(['solver', ['str', rng.choice(['arnoldi', 'direct'])]])
+    for k, vals in METHOD_KW[name].items():
+        if name == 'Pseudotime' or rng.random() < 0.6:
+            v = rng.choice(vals)
+            kw.append([k, v if isinstance(v, list) else ['float', v]])
+    return ['method', name, kw]
 
 
 def gen_plain_arg(rng):
@@ -508,8 +548,24 @@ def near_misses(spec, rng):
     elif t == 'mesh':
         out.append(['mesh', spec[1], spec[2], spec[3] + 1])
     elif t == 'method':
-        out.append(['method', 'Newton' if spec[1] == 'Direct' else 'Direct', spec[2]])
-        out.append(['method', spec[1], spec[2][:1]])
+        if spec[1] in ('Direct', 'Newton'):
+            out.append(['method', 'Newton' if spec[1] == 'Direct' else 'Direct', spec[2]])
+        if spec[1] == 'Newton':
+            out.append(['method', 'ReuseNewton', spec[2]])
+        # one argument changed, one argument dropped (generated values never equal the defaults)
+        for i, (k, v) in enumerate(spec[2]):
+            alts = [['float', x] for x in METHOD_KW.get(spec[1], {}).get(k, []) if not isinstance(x, list)] + [x for x in METHOD_KW.get(spec[1], {}).get(k, []) if isinstance(x, list)]
+            if k == 'atol':
+                alts = [['float', 1e-8], ['float', 1e-6]]
+            for a in alts:
+                if a != v:
+                    out.insert(0, ['method', spec[1], spec[2][:i] + [[k, a]] + spec[2][i + 1:]])
+                    break
+            if not (spec[1] == 'Pseudotime' and k in ('inertia', 'timestep')):
+                out.append(['method', spec[1], spec[2][:i] + spec[2][i + 1:]])
+    elif t == 'fn':
+        out.insert(0, ['fn', spec[1], spec[2][:-1] + [spec[2][-1] + 2.]])
+        out.append(['fn', 'dot' if spec[1] == 'axpy' else 'axpy', spec[2]])
     elif t == 'system':
         out.append(['system', spec[1], spec[2] + 1])
     return out
@@ -749,6 +805,8 @@ def run_history(case):
             if order:
                 hid = order[op[1] % len(order)]
                 si, v = handles[hid]
+                if pool[si][0] == 'fn':
+                    continue
                 try:
                     w = pickle.loads(pickle.dumps(v))
                 except Exception as e:
@@ -860,7 +918,7 @@ for s in pool:
             row.append(type(e).__name__ + ':' + str(e)[:80])
     try:
         import base64
-        row.append('P:' + base64.b64encode(pickle.dumps(c17.build(s, 0))).decode())
+        row.append('P:-' if s[0] == 'fn' else 'P:' + base64.b64encode(pickle.dumps(c17.build(s, 0))).decode())
     except Exception as e:
         row.append('P:!' + type(e).__name__ + ':' + str(e)[:80])
     out.append(row)
@@ -895,6 +953,8 @@ def run_xproc(case):
     for s, a, pk in zip(pool, here, pickled):
         if any(':' in h or h.startswith('unhashable') for h in a):
             continue   # reported by the loop below
+        if pk == 'P:-':
+            continue
         if pk.startswith('P:!'):
             return viol('E-pickle-raised', f'{s}: pickling in the child interpreter failed: {pk[3:]}', case, log)
         local = build(s, 0)
